@@ -4,6 +4,7 @@ package main
 
 import (
 	"bytes"
+	"encoding/binary"
 	"fmt"
 	"math"
 	"reflect"
@@ -61,6 +62,44 @@ func typeCheck(name string) *venum.Check {
 				}
 				if r.Pos() != len(w.Bytes()) {
 					c.Fail("reader-consumes-exactly", in, "reader consumed %d of the %d bytes the writer produced", r.Pos(), len(w.Bytes()))
+				}
+			})
+			// 1b / 2b. the same two routes with writer and reader configured for little-endian (option ByteOrder)
+			safely(c, "roundtrip-no-panic", in, func() {
+				c.Case(name+"|direct-le|"+want, true)
+				w := messages.NewWriter(messages.WriterOption{ByteOrder: binary.LittleEndian})
+				if err := messages.VerifWrite(name, v, w, codec); err != nil || w.Err() != nil {
+					c.Fail("roundtrip-direct", in, "little-endian writer failed: %v / %v", err, w.Err())
+					return
+				}
+				r := messages.NewReader(w.Bytes(), messages.ReaderOption{ByteOrder: binary.LittleEndian})
+				back, err := messages.VerifRead(name, r, codec)
+				if err != nil {
+					c.Fail("roundtrip-direct", in, "little-endian reader failed on the little-endian writer's output: %v", err)
+					return
+				}
+				if got := vcodec.CanonMessage(name, back); got != want {
+					c.Fail("roundtrip-direct", in, "little-endian round trip: decoded value differs: %s", got)
+				}
+			})
+			safely(c, "roundtrip-no-panic", in, func() {
+				c.Case(name+"|nested-le|"+want, true)
+				w := messages.NewWriter(messages.WriterOption{ByteOrder: binary.LittleEndian})
+				if err := w.WriteMessage(v, codec); err != nil {
+					c.Fail("roundtrip-nested", in, "little-endian WriteMessage failed: %v", err)
+					return
+				}
+				r := messages.NewReader(w.Bytes(), messages.ReaderOption{ByteOrder: binary.LittleEndian})
+				back, err := r.ReadMessage(codec)
+				if err != nil {
+					c.Fail("roundtrip-nested", in, "little-endian ReadMessage failed: %v", err)
+					return
+				}
+				if got := vcodec.CanonMessage(name, back); got != want {
+					c.Fail("roundtrip-nested", in, "little-endian nested round trip: decoded value differs: %s", got)
+				}
+				if r.Pos() != len(w.Bytes()) {
+					c.Fail("reader-consumes-exactly", in, "little-endian ReadMessage consumed %d of %d bytes", r.Pos(), len(w.Bytes()))
 				}
 			})
 			// 2. nested through WriteMessage / ReadMessage
@@ -208,6 +247,24 @@ func primitiveCheck() *venum.Check {
 					}
 				})
 			}
+		}
+		// the same values with writer and reader configured for little-endian
+		for _, v := range primitives() {
+			in := map[string]any{"type": fmt.Sprintf("%T", v), "value": fmt.Sprintf("%v", v), "byte_order": "little-endian"}
+			safely(c, "primitive-no-panic", in, func() {
+				c.Case(fmt.Sprintf("le|%T|%v", v, v), true)
+				w := messages.NewWriter(messages.WriterOption{ByteOrder: binary.LittleEndian})
+				w.Write(v)
+				if w.Err() != nil {
+					c.Fail("primitive-roundtrip", in, "little-endian Write failed: %v", w.Err())
+					return
+				}
+				target := reflect.New(reflect.TypeOf(v))
+				r := messages.NewReader(w.Bytes(), messages.ReaderOption{ByteOrder: binary.LittleEndian})
+				if err := r.Read(target.Interface()); err != nil || vcodec.Canon(target.Elem().Interface()) != vcodec.Canon(v) || r.Pos() != len(w.Bytes()) {
+					c.Fail("primitive-roundtrip", in, "little-endian round trip: err=%v, read back %v, consumed %d of %d", err, target.Elem().Interface(), r.Pos(), len(w.Bytes()))
+				}
+			})
 		}
 		// several values in a row: positions stay aligned
 		w := messages.NewWriter()
